@@ -251,10 +251,14 @@ def run_load(cell):
         gevent.spawn(other_process)
     early = {}
     if cell.get('enqueue_at_start'):
-        # a message accepted while the start-up load() is still running; it
+        # a message accepted while the start-up load() is still running
+        # (enqueue() called inside the k-th storage operation, every k); it
         # fails once and is re-queued by _retry_later during the load
-        early['e0'] = w.queue.enqueue(
-            qc.make_envelope('e0', 's@z', ['a@x']))[0][1]
+        def enq():
+            early['e0'] = w.queue.enqueue(
+                qc.make_envelope('e0', 's@z', ['a@x']))[0][1]
+        k = api.choice('k', cell.get('K', 12))
+        qc.INJECT[qc.YIELDS[0] + k] = lambda: gevent.spawn(enq)
     qc.run_until_quiescent()
     w.queue.kill()
     info = dict(backend=cell['backend'], kind='load')
